@@ -315,11 +315,7 @@ func trunc20(b []byte) []byte {
 func (e *env) exportBounded(what string, id uint64, quiescent bool, after string) ([]byte, error) {
 	var b []byte
 	var err error
-	frame := ""
-	if quiescent {
-		frame = "store.(*ImmuStore).ExportTx"
-	}
-	if !bounded(frame, func() { b, err = e.st.ExportTx(id, false, false, e.newTx()) }) {
+	if !bounded("", func() { b, err = e.st.ExportTx(id, false, false, e.newTx()) }) {
 		e.wedged = true
 		e.failf("%s: ExportTx(%d) did not return within the liveness bound (%v)%s", what, id, liveness, after)
 	}
@@ -1340,11 +1336,7 @@ func (e *env) concurrentPhase(rt *rapid.T) {
 		})
 	}
 	e.jitterOn.Store(true)
-	frame := ""
-	if nReaders == 0 && nWriters == 0 {
-		frame = "store.(*ImmuStore).fetchVLog" // only truncators: all of them parked on a value-log lock = nobody left to release one
-	}
-	fin := boundedFor(3*liveness, frame, fns...) // the phase is up to a few dozen calls
+	fin := boundedFor(3*liveness, "", fns...) // the phase is up to a few dozen calls
 	e.jitterOn.Store(false)
 	if !fin {
 		e.wedged = true
